@@ -184,7 +184,7 @@ fn runcfg_json(r: &RunCfg) -> Value {
 pub fn run(cfg: &Cfg, corpus: &Corpus) -> Result<TierResult, String> {
     let t0 = std::time::Instant::now();
     let sel = select_items(cfg, corpus)?;
-    let shim = cfg.build_dir.join("simhost.so");
+    let shim = cfg.build_dir.join("simhost-min.so");
     let base = cfg.build_dir.join("rustc-tier");
     let n_runs: usize = std::env::var("SIM_RUSTC_RUNS").ok().and_then(|s| s.parse().ok()).unwrap_or(8);
     let runs = plan_runs(cfg.seed, n_runs);
@@ -251,7 +251,7 @@ pub fn replay(cfg: &Cfg, v: &Value, path: &Path) -> i32 {
         Some(RunCfg { entropy_seed: x["entropy_seed"].as_str()?.parse().ok()?, extra_env: x["extra_env"].as_array()?.iter().filter_map(|e| Some((e[0].as_str()?.to_string(), e[1].as_str()?.to_string()))).collect() })
     };
     let (Some(a), Some(b)) = (parse_rc(&v["reference_run"]), parse_rc(&v["faulty_run"])) else { return 2 };
-    let shim = cfg.build_dir.join("simhost.so");
+    let shim = cfg.build_dir.join("simhost-min.so");
     let base = cfg.build_dir.join("rustc-tier-replay");
     let dir = base.join(format!("{}-{}", backend.tag(), kind));
     let target = base.join(format!("target-{}", backend.tag()));
